@@ -76,6 +76,13 @@ fn gen_rest(r: &mut Rng) -> String {
     let mut parts: Vec<String> = vec![];
     for i in 0..depth {
         let mut w = format!("{}{}", r.pick(&WORDS), r.below(30));
+        if r.chance(1, 3) {
+            // every letter of the alphabet has to be hashed and case-folded somewhere
+            w.push('_');
+            for _ in 0..1 + r.below(5) {
+                w.push((b'a' + r.below(26) as u8) as char);
+            }
+        }
         if i + 1 == depth {
             w.push_str(*r.pick(&EXTS));
         }
@@ -346,6 +353,8 @@ pub fn directed() -> Vec<Doc> {
     // .index2 only, so that an index file that was only partly loaded cannot hide behind the other
     let mut many: Vec<EntrySpec> = (0..12).map(|i| ent(&format!("exd/sheet{}.exh", i), 0, i % 3 != 2, i % 3 != 1, 40 + i)).collect();
     many.push(EntrySpec { phantom: Some(((1u64 << 28) - 1) * 128), ..ent("exd/phantom.exd", 7, true, true, 60) });
+    // a pangram: every letter is hashed, and queried in the other case
+    many.push(ent("exd/the_quick_brown_fox/jumps_over_a_lazy_dog.exh", 0, true, true, 61));
     let install = InstallSpec {
         platform: 2,
         repos: vec![
@@ -400,6 +409,8 @@ pub fn directed() -> Vec<Doc> {
         q(13, QKind::Exists, "chara/ex7/unreachable_expansion_token.bin"),
         q(14, QKind::Extract, "exd/sheet3.exh"),
         q(15, QKind::Exists, "exd/absent.exh"),
+        q(16, QKind::Exists, "EXD/THE_QUICK_BROWN_FOX/JUMPS_OVER_A_LAZY_DOG.EXH"),
+        q(17, QKind::Extract, "exd/The_Quick_Brown_Fox/Jumps_Over_A_Lazy_Dog.exh"),
     ];
     let noisy = Benign { short_read: 100, eintr_read: 50, short_write: 0, eintr_write: 0, one_byte_reads: false, one_byte_writes: false, permute_dirs: true };
     let mut out = vec![];
